@@ -46,6 +46,8 @@ Setup ==
             [op |-> "SetDefault", h |-> "d2", u |-> AB],
             [op |-> "NewBundle", id |-> [p |-> "ex", ns |-> A, l |-> <<"b1">>], out |-> "sb"] >>
     [] Scenario \in {"c08", "c08b"} -> SetupWorld
+    [] Scenario = "c08d" ->      \* a second bundle: bundles whose unified contents coincide stay distinct
+         SetupWorld \o << [op |-> "Bundle", h |-> "d1", id |-> NameQN("ex", A, <<"b2">>), out |-> "b2"] >>
     [] Scenario = "c08c" ->      \* two kinds already share ex:x in b1, two relation kinds share ex:g in d1
          SetupWorld \o
          << NR("b1", "entity", <<NamePL("ex", X)>>, <<>>,
@@ -117,6 +119,13 @@ RecMenu ==
          \cup
          { [k |-> "generation", id |-> <<>>,
             formals |-> << <<"entity", Ref(NamePL("ex", X))>> >>, extras |-> <<>>] }
+    [] Scenario = "c08d" ->
+         { [k |-> "entity", id |-> <<NamePL("ex", X)>>, formals |-> <<>>, extras |-> e]
+             : e \in { <<>>, << <<NameQN("ex", A, <<"attr">>), [t |-> "int", v |-> "1"]>> >> } }
+         \cup
+         { [k |-> "generation", id |-> <<NamePL("ex", <<"g">>)>>,
+            formals |-> << <<"entity", Ref(NamePL("ex", X))>> >> \o f, extras |-> <<>>]
+             : f \in { <<>>, << <<"time", [t |-> "dt", v |-> "t1"]>> >> } }
     [] Scenario = "c04" ->
          { [k |-> "entity", id |-> <<NameQN("zz", A, X)>>, formals |-> <<>>, extras |-> <<>>],
            [k |-> "entity", id |-> <<NameQN("ex", A, X)>>, formals |-> <<>>,
@@ -139,6 +148,7 @@ Targets ==
   CASE Scenario = "c08" -> {"d1", "b1"}
     [] Scenario = "c08b" -> {"b1"}
     [] Scenario = "c08c" -> {"b1"}
+    [] Scenario = "c08d" -> {"b1", "b2"}
     [] OTHER -> Live
 
 ActsNewRec == { NR(h, t.k, t.id, t.formals, t.extras) : h \in Targets \cap Live, t \in RecMenu }
@@ -183,7 +193,7 @@ Menu ==
                            \cup ActsDerive \cup ActsGet
     [] Scenario = "c09" -> ActsNewRec \cup ActsUpdate \cup ActsAddBundle \cup ActsBundle
                            \cup {a \in ActsDerive : a.op = "Flattened"}
-    [] Scenario \in {"c08", "c08b", "c08c"} -> ActsNewRec \cup {a \in ActsDerive : a.op = "Unified"}
+    [] Scenario \in {"c08", "c08b", "c08c", "c08d"} -> ActsNewRec \cup {a \in ActsDerive : a.op = "Unified"}
     [] Scenario = "c12" -> ActsNewRec \cup ActsAddRecord \cup ActsUpdate \cup ActsAddBundle
                            \cup ActsDerive \cup ActsMutate \cup ActsCopy
 
